@@ -2,6 +2,7 @@ import Mathlib.Tactic.FieldSimp
 import Mathlib.Tactic.Ring
 import Mathlib.Tactic.Linarith
 import Mathlib.Algebra.Order.Field.Rat
+import Mathlib.Data.Nat.Factorial.Basic
 import ChemProofs.Model.Poisson
 /-
 C15 — the Poisson approximation is a normalised Poisson profile on a neutron ladder
@@ -300,5 +301,199 @@ theorem poissonNLoop_first (lam target : Rat) (maxIter fuel i : Nat) (s : PoisSt
 /-- non-vacuity: an actual pattern and an actual count -/
 example : (poisson 1800 3 1 1800 1 1).map (·.int) = [2/5, 2/5, 1/5] := by decide +kernel
 example : poissonN 1800 1800 (1/2) 255 = 2 := by decide +kernel
+
+/-! ## closed forms (TASK K, part 2)
+
+`pterm λ m = λ^m / m!`, `pacc λ i = Σ_{m ≤ i} pterm λ m`, `pratio λ i = pterm λ i / pacc λ i`.
+Proved in full (nothing missing): `poissonInts_closed`, `poisson_closed`, `poisson_ratio`,
+`poissonRatios_closed` (+ `_getElem`), `poissonN_minimal`, `poissonN_eq_of`.
+`poisson_ratio` keeps the hypotheses `0 ≤ mass`, `0 < lf`, `i < n` of its specification although the
+proof (through the closed form) does not need them. -/
+
+/-- the `m`-th Poisson term (unnormalised): `λ^m / m!` -/
+def pterm (lam : Rat) (m : Nat) : Rat := lam ^ m / (m.factorial : Rat)
+
+/-- partial sums `Σ_{m < n} λ^m / m!` -/
+def psum (lam : Rat) : Nat → Rat
+  | 0 => 0
+  | n + 1 => psum lam n + pterm lam n
+
+/-- state after iterations `1 … m`: `(λ^m, m!)` -/
+def stateAt (lam : Rat) (m : Nat) : PoisState := ⟨lam ^ m, (m.factorial : Rat)⟩
+
+theorem pNext_stateAt (lam : Rat) (m : Nat) : pNext lam (stateAt lam m) (m + 1) = stateAt lam (m + 1) := by
+  simp only [pNext, stateAt, Nat.factorial_succ, pow_succ]
+  push_cast
+  congr 1
+  ring
+
+theorem stateAt_cur (lam : Rat) (m : Nat) : (stateAt lam m).cur = pterm lam m := rfl
+
+theorem stateAt_zero (lam : Rat) : stateAt lam 0 = ⟨1, 1⟩ := by
+  simp [stateAt]
+
+theorem poissonInts_stateAt (lam : Rat) (k m : Nat) :
+    poissonInts lam k (m + 1) (stateAt lam m) = (List.range' (m + 1) k).map (pterm lam) := by
+  induction k generalizing m with
+  | zero => rfl
+  | succ k ih =>
+    simp only [poissonInts, pNext_stateAt, stateAt_cur, ih, List.range'_succ, List.map_cons]
+
+theorem poissonInts_closed (lam : Rat) (k : Nat) (j : Nat) (hj : j < k) :
+    (poissonInts lam k 1 ⟨1, 1⟩)[j]'(by rw [poissonInts_length]; exact hj) =
+      lam ^ (j + 1) / ((j + 1).factorial : Rat) := by
+  have h := poissonInts_stateAt lam k 0
+  rw [stateAt_zero] at h
+  have e : 0 + 1 + 1 * j = j + 1 := by omega
+  simp only [h, List.getElem_map, List.getElem_range', pterm, e]
+
+
+/-- `Σ_{m ≤ i} λ^m / m!` -/
+def pacc (lam : Rat) (i : Nat) : Rat := ((List.range (i + 1)).map (pterm lam)).sum
+
+theorem pterm_zero (lam : Rat) : pterm lam 0 = 1 := by simp [pterm]
+
+theorem pacc_zero (lam : Rat) : pacc lam 0 = 1 := by simp [pacc, pterm_zero]
+
+theorem pacc_succ (lam : Rat) (i : Nat) : pacc lam (i + 1) = pacc lam i + pterm lam (i + 1) := by
+  simp only [pacc, List.range_succ (n := i + 1), List.map_append, List.sum_append, List.map_cons,
+    List.map_nil, List.sum_cons, List.sum_nil, add_zero]
+
+/-- the ratio law of the Poisson terms: `t_i · i = t_{i-1} · λ` -/
+theorem pterm_step (lam : Rat) (i : Nat) : pterm lam (i + 1) * ((i + 1 : Nat) : Rat) = pterm lam i * lam := by
+  have h1 : ((i.factorial : Nat) : Rat) ≠ 0 := by exact_mod_cast (Nat.factorial_pos i).ne'
+  have h2 : (((i + 1 : Nat)) : Rat) ≠ 0 := by exact_mod_cast (Nat.succ_pos i).ne'
+  simp only [pterm, Nat.factorial_succ, pow_succ]
+  push_cast
+  have h2' : ((i : Rat) + 1) ≠ 0 := by exact_mod_cast h2
+  field_simp
+
+/-- the whole unnormalised intensity list is `[t_0, …, t_{n-1}]` -/
+theorem poisson_ints_eq (lam : Rat) (n : Nat) (hn : n ≠ 0) :
+    (1 : Rat) :: poissonInts lam (n - 1) 1 ⟨1, 1⟩ = (List.range n).map (pterm lam) := by
+  have h := poissonInts_stateAt lam (n - 1) 0
+  rw [stateAt_zero] at h
+  obtain ⟨k, rfl⟩ : ∃ k, n = k + 1 := ⟨n - 1, by omega⟩
+  rw [h, List.range_eq_range', List.range'_succ, List.map_cons, pterm_zero]
+  simp
+
+/-- **closed form of the pattern**: peak `i` has intensity `(λ^i / i!) / Σ_{j<n} λ^j / j!` -/
+theorem poisson_closed (mass : Rat) (n : Nat) (z : Int) (lf ns pr : Rat) (i : Nat) (p : Peak)
+    (hp : (poisson mass n z lf ns pr)[i]? = some p) :
+    p.int = ((mass / lf) ^ i / (i.factorial : Rat)) /
+      ((List.range n).map (fun j => (mass / lf) ^ j / (j.factorial : Rat))).sum := by
+  have hlen := poisson_len mass n z lf ns pr
+  have hin : i < n := by
+    rw [← hlen]
+    exact (List.getElem?_eq_some_iff.1 hp).1
+  have hn : ¬ n = 0 := by omega
+  have hint : ((poisson mass n z lf ns pr).map (·.int))[i]? = some p.int := by
+    rw [List.getElem?_map, hp]; rfl
+  simp only [poisson, hn, if_false] at hint
+  rw [map_int_zipIdx _ 0 _ (fun i => chargedMz (mass + ((i : Nat) : Rat) * ns) z pr)] at hint
+  rw [poisson_ints_eq _ n hn] at hint
+  rw [List.getElem?_map, List.getElem?_map, List.getElem?_range hin] at hint
+  simp only [Option.map_some, Option.some.injEq] at hint
+  rw [← hint]
+  rfl
+
+/-- **ratio law on the returned pattern**: `p_i · i = p_{i-1} · λ` with `λ = mass / lambda_factor` -/
+theorem poisson_ratio (mass : Rat) (n : Nat) (z : Int) (lf ns pr : Rat) (_hm : 0 ≤ mass) (_hlf : 0 < lf)
+    (i : Nat) (hi : 1 ≤ i) (_hin : i < n)
+    (p q : Peak) (hp : (poisson mass n z lf ns pr)[i]? = some p) (hq : (poisson mass n z lf ns pr)[i-1]? = some q) :
+    p.int * (i : Rat) = q.int * (mass / lf) := by
+  rw [poisson_closed mass n z lf ns pr i p hp, poisson_closed mass n z lf ns pr (i - 1) q hq]
+  obtain ⟨k, rfl⟩ : ∃ k, i = k + 1 := ⟨i - 1, by omega⟩
+  have := pterm_step (mass / lf) k
+  have key : ∀ a b S c d : Rat, a * c = b * d → a / S * c = b / S * d := by
+    intro a b S c d h
+    rw [div_mul_eq_mul_div, h, div_mul_eq_mul_div]
+  simp only [pterm] at this
+  simp only [Nat.add_sub_cancel]
+  exact key _ _ _ _ _ this
+
+
+/-! ### the peak-count loop in closed form -/
+
+/-- the `i`-th ratio compared by the loop: `t_i / Σ_{m ≤ i} t_m` -/
+def pratio (lam : Rat) (i : Nat) : Rat := pterm lam i / pacc lam i
+
+theorem poissonRatios_stateAt (lam : Rat) (k m : Nat) :
+    poissonRatios lam k (m + 1) (stateAt lam m) (pacc lam m) = (List.range' (m + 1) k).map (pratio lam) := by
+  induction k generalizing m with
+  | zero => rfl
+  | succ k ih =>
+    simp only [poissonRatios, pNext_stateAt, stateAt_cur, ← pacc_succ, ih, List.range'_succ, List.map_cons, pratio]
+
+/-- **closed form of the compared ratios**: entry `j` is `t_{j+1} / Σ_{m ≤ j+1} t_m`, `t_m = λ^m / m!` -/
+theorem poissonRatios_closed (lam : Rat) (k : Nat) :
+    poissonRatios lam k 1 ⟨1, 1⟩ 1 = (List.range' 1 k).map (pratio lam) := by
+  have h := poissonRatios_stateAt lam k 0
+  rw [stateAt_zero, pacc_zero] at h
+  exact h
+
+theorem poissonRatios_closed_getElem (lam : Rat) (k j : Nat) (hj : j < (poissonRatios lam k 1 ⟨1, 1⟩ 1).length) :
+    (poissonRatios lam k 1 ⟨1, 1⟩ 1)[j] =
+      (lam ^ (j + 1) / ((j + 1).factorial : Rat)) /
+        ((List.range (j + 2)).map (fun m => lam ^ m / (m.factorial : Rat))).sum := by
+  have e : 1 + 1 * j = j + 1 := by omega
+  simp only [poissonRatios_closed, List.getElem_map, List.getElem_range', e]
+  rfl
+
+/-- **minimality in closed form**: the count `c` returned by `poisson_approximate_n_peaks_of` lies in
+    `1 ..= maxIter`; no `i ∈ [1, c)` has `t_i / Σ_{m≤i} t_m < 1 - t`; and if `c < maxIter` then `c` itself has.
+    I.e. `c` is the least `i ∈ [1, maxIter)` whose ratio is below `1 - t`, else `maxIter`. -/
+theorem poissonN_minimal (mass lf t : Rat) (maxIter : Nat) (hm : 1 ≤ maxIter) :
+    1 ≤ poissonN mass lf t maxIter ∧ poissonN mass lf t maxIter ≤ maxIter ∧
+    (∀ i, 1 ≤ i → i < poissonN mass lf t maxIter → ¬ pratio (mass / lf) i < 1 - t) ∧
+    (poissonN mass lf t maxIter < maxIter → pratio (mass / lf) (poissonN mass lf t maxIter) < 1 - t) := by
+  have hr := poissonN_range mass lf t maxIter hm
+  refine ⟨hr.1, hr.2, ?_⟩
+  have hfirst := poissonNLoop_first (mass / lf) (1 - t) maxIter maxIter 1 ⟨1, 1⟩ 1 (by omega) hm
+  rw [poissonRatios_closed] at hfirst
+  unfold poissonN
+  rw [hfirst]
+  cases hfi : List.findIdx? (fun r => decide (r < 1 - t)) (List.map (pratio (mass / lf)) (List.range' 1 (maxIter - 1))) with
+  | none =>
+    simp only
+    rw [List.findIdx?_eq_none_iff] at hfi
+    refine ⟨?_, fun h => absurd h (Nat.lt_irrefl _)⟩
+    intro i hi1 hi2
+    have hmem : pratio (mass / lf) i ∈ List.map (pratio (mass / lf)) (List.range' 1 (maxIter - 1)) := by
+      apply List.mem_map_of_mem
+      rw [List.mem_range'_1]
+      omega
+    have := hfi _ hmem
+    simpa using this
+  | some j =>
+    simp only
+    rw [List.findIdx?_eq_some_iff_getElem] at hfi
+    obtain ⟨hj, hpj, hlt⟩ := hfi
+    simp only [List.length_map, List.length_range'] at hj
+    constructor
+    · intro i hi1 hi2
+      have := hlt (i - 1) (by omega)
+      have e : 1 + 1 * (i - 1) = i := by omega
+      simpa only [List.getElem_map, List.getElem_range', e, decide_eq_true_eq] using this
+    · intro _
+      have e : 1 + 1 * j = 1 + j := by omega
+      simpa only [List.getElem_map, List.getElem_range', e, decide_eq_true_eq] using hpj
+
+/-- the characterisation determines the count uniquely -/
+theorem poissonN_eq_of (mass lf t : Rat) (maxIter : Nat) (hm : 1 ≤ maxIter) (c : Nat)
+    (hc1 : 1 ≤ c) (hc2 : c ≤ maxIter)
+    (hbefore : ∀ i, 1 ≤ i → i < c → ¬ pratio (mass / lf) i < 1 - t)
+    (hat : c < maxIter → pratio (mass / lf) c < 1 - t) :
+    poissonN mass lf t maxIter = c := by
+  obtain ⟨h1, h2, h3, h4⟩ := poissonN_minimal mass lf t maxIter hm
+  rcases Nat.lt_trichotomy (poissonN mass lf t maxIter) c with h | h | h
+  · exact absurd (h4 (by omega)) (hbefore _ h1 h)
+  · exact h
+  · exact absurd (hat (by omega)) (h3 c hc1 h)
+
+
+/-- non-vacuity of the closed forms -/
+example : pratio 1 2 = 1 / 5 := by decide +kernel
+example : poissonRatios 1 2 1 ⟨1, 1⟩ 1 = [1 / 2, 1 / 5] := by decide +kernel
 
 end Chem
